@@ -49,7 +49,9 @@ def make_case(rc):
         letters, row, own = rc['letters'], rc['row'], rc['own']
         if own:
             # the same formula text also sits in other columns of the sheet: each cell answers for its own column
-            out = I.eval_formula('=COLUMN()', {'A1': '=COLUMN()', 'E1': '=COLUMN()'}, addr='%s%d' % (letters, row))
+            # (translated as a whole file: the cells A1 and E1 are then translated BEFORE most probes, the way a memo per formula text
+            # would need; translated from the entry cell the probe itself always comes first)
+            out = I.eval_formula('=COLUMN()', {'A1': '=COLUMN()', 'E1': '=COLUMN()'}, addr='%s%d' % (letters, row), entry_mode=bool(row % 3 == 0))
         else:
             out = I.eval_formula('=COLUMN(%s%s%s%d)' % (rc.get('d1', ''), letters, rc.get('d2', ''), row), {}, addr='B2')
         coq = 'CColumn %s %s' % (C.cstr(letters), C.cres(out))
